@@ -117,6 +117,25 @@ Theorem C16_transfer_only_ligand_partial :
   NoDup (map pa_id (all_atoms rs)) -> guard lig rs = true -> transfer_only_ligand lig rs.
 Proof. exact @transfer_only_ligand_partial. Qed.
 
+(* the guard is exact: whenever it is false the property fails *)
+Theorem C16_transfer_guard_exact :
+  forall (P : Type) (lig : list (string * P)) (rs : list (presidue P)),
+  NoDup (map pa_id (all_atoms rs)) -> transfer_only_ligand lig rs -> guard lig rs = true.
+Proof. exact @transfer_guard_exact. Qed.
+
+(* Mol2Atom.formal_charge (all decision rules, including the order-dependent
+   phosphate rule, which walks BOND lines, not atoms) does not depend on the
+   position of the atoms in the file: moving atom i to position sigma i and
+   rewriting the bond endpoints gives the same formal charge *)
+Theorem C16_formal_charge_equivariant :
+  forall (m : mol) (sigma tau : nat -> nat),
+  (forall i, (i < m_n m)%nat -> (sigma i < m_n m)%nat) ->
+  (forall i, (i < m_n m)%nat -> tau (sigma i) = i) ->
+  mol_ok m = true ->
+  forall i, (i < m_n m)%nat ->
+  formal_charge2 (relabel m sigma tau) (sigma i) = formal_charge2 m i.
+Proof. exact formal_charge_equivariant. Qed.
+
 (* non-vacuity: acetate (tests/data/acetate.mol2: O.co2=C.2(=O.co2)-C.3H3) is
    accepted, has formal charges 0,0,-1/2,-1/2 (doubled: -1), after two cycles
    every atom carries a non-zero charge and they sum to -1; a 3-cycle of the
@@ -133,7 +152,12 @@ Example C16_nonvacuous :
               Qeq_bool (Qsum (map snd ps)) (-1 # 1) = true) /\
   (let sigma := fun i => match i with 0 => 1 | 1 => 2 | 2 => 0 | k => k end%nat in
    let tau := fun i => match i with 1 => 0 | 2 => 1 | 0 => 2 | k => k end%nat in
-   forallb (fun i => (sigma i <? 7)%nat && (tau i <? 7)%nat && (tau (sigma i) =? i)%nat) (seq 0 7) = true) /\
+   forallb (fun i => (sigma i <? 7)%nat && (tau i <? 7)%nat && (tau (sigma i) =? i)%nat) (seq 0 7) = true /\
+   map (formal_charge2 (relabel m sigma tau)) (seq 0 7) = map Some [-1; -1; 0; 0; 0; 0; 0]%Z) /\
+  (* the phosphate rule fires: O=P(O)(O)(O), the first single-bonded O.3 in P's bond list gets -1 *)
+  formal_charges2 (mkmol ["P.3"; "O.2"; "O.3"; "O.3"; "O.3"]%string
+                         [(0, 1, Double); (3, 0, Single); (0, 2, Single); (0, 4, Single)]%nat)
+    = Some [0; 0; 0; -2; 0]%Z /\
   guard f4_lig [ mkpres true [mkpatom 2 true "C1" None; mkpatom 3 true "H1" None];
                  mkpres false [mkpatom 4 true "O" (Some (-8340, 17683)%Z);
                                mkpatom 5 true "H1W" (Some (4170, 0)%Z)] ]%string = true /\
@@ -142,7 +166,7 @@ Proof.
   cbv zeta. split; [vm_compute; reflexivity|]. split; [vm_compute; reflexivity|].
   split.
   - eexists. split; [reflexivity|]. split; vm_compute; reflexivity.
-  - split; [vm_compute; reflexivity|]. split; vm_compute; reflexivity.
+  - split; [split; vm_compute; reflexivity|]. split; [vm_compute; reflexivity|]. split; vm_compute; reflexivity.
 Qed.
 
 Print Assumptions C16_QA_laws.
@@ -154,4 +178,6 @@ Print Assumptions C16_supported_complete.
 Print Assumptions C16_assign_parameters_sound.
 Print Assumptions C16_transfer_only_ligand_refuted.
 Print Assumptions C16_transfer_only_ligand_partial.
+Print Assumptions C16_transfer_guard_exact.
+Print Assumptions C16_formal_charge_equivariant.
 Print Assumptions C16_nonvacuous.
